@@ -4,7 +4,8 @@ set -e
 export GOFLAGS=-mod=mod GOPROXY=off GOSUMDB=off GOTOOLCHAIN=local CGO_ENABLED=1
 V="${VERIF_DIR:-/verif}"
 cd "$V/sim"
-{ sed '1s/.*/module verifsim/' /repo/go.mod; echo; echo 'require github.com/rigochain/rigo-go v0.0.0'; echo 'replace github.com/rigochain/rigo-go => /repo'; } > go.mod.new
+R="${VERIF_REPO:-/repo}"   # VERIF_REPO is for the developer's own experiments on scratch worktrees; registered checks use /repo
+{ sed '1s/.*/module verifsim/' "$R/go.mod"; echo; echo 'require github.com/rigochain/rigo-go v0.0.0'; echo "replace github.com/rigochain/rigo-go => $R"; } > go.mod.new
 if ! cmp -s go.mod.new go.mod; then mv go.mod.new go.mod; else rm go.mod.new; fi
-cp /repo/go.sum go.sum
+cp "$R/go.sum" go.sum
 go build -tags verif -o "$V/bin/simchk" ./cmd/simchk
